@@ -254,23 +254,31 @@ def _to_direction(ctx):
         return
     u = pa[1]
     seen = 0
-    for q in paths(fn):
-        if q.status == "raise":
-            continue
-        isq = None
-        infeasible = False
-        for t in q.tests():
-            k = norm(t.resolved)
+    from ..flowexpr import consistent, reduce_ifexp
+    ps = paths(fn)
+    work = []
+    for isq_ in (True, False):
+        def atom(e, _q=isq_):
+            k = norm(e)
             if k == f"isinstance({u}, Quantity)":
-                isq = t.extra
-            # a quantity's magnitude is never None: a flag variable holding it is set exactly on the quantity branch
-            if (k == f"{u}.magnitude is None" and t.extra) or (k == f"{u}.magnitude is not None" and not t.extra):
-                infeasible = True
-        if infeasible:
-            continue
-        mags = [e.resolved for e in q.events if e.kind == "store" and e.extra == "self.magnitude"]
-        units = [norm(e.resolved) for e in q.events if e.kind == "store" and e.extra == "self.baseunits"]
-        if isq is None or len(mags) != 1 or len(units) != 1:
+                return _q
+            # a flag variable holding the quantity's magnitude is set exactly on the quantity branch; None elsewhere
+            if k == f"{u}.magnitude is None":
+                return False
+            if k == f"{u}.magnitude is not None":
+                return True
+            return None
+        cs, unk = consistent(ps, atom)
+        if unk:
+            ctx.form(False, Q, "Quantity.to", "tests of to() are decided by the kind of target", detail=sorted(set(unk))[:2])
+            return
+        for q in cs:
+            if q.status != "raise":
+                work.append((isq_, q, atom))
+    for isq, q, atom in work:
+        mags = [reduce_ifexp(e.resolved, atom) for e in q.events if e.kind == "store" and e.extra == "self.magnitude"]
+        units = [norm(reduce_ifexp(e.resolved, atom)) for e in q.events if e.kind == "store" and e.extra == "self.baseunits"]
+        if len(mags) != 1 or len(units) != 1:
             ctx.form(False, Q, "Quantity.to", "one store of the magnitude and one of the units per branch on the kind of target", detail={"target is a quantity": isq, "units": units})
             continue
         seen += 1
@@ -316,9 +324,32 @@ def r4_atomic_to(ctx):
                   expected="a refused conversion leaves magnitude and units untouched")
     _to_direction(ctx)
     fn = ctx.fn(Q, "Quantity.value")
-    s = norm(fn)
-    ctx.form("self._convert(self.magnitude, self.baseunits, BaseUnits(expression)).value" in s, Q, "Quantity.value",
-              "value(unit) converts (own magnitude, own units) -> unit without storing")
+    from ..flowexpr import consistent, paths as _paths, reduce_ifexp
+    pa = [a.arg for a in fn.args.args]
+    what = "value(unit) converts (own magnitude, own units) -> unit without storing"
+    if len(pa) < 2:
+        ctx.form(False, Q, "Quantity.value", what, detail=pa)
+    else:
+        x = pa[1]
+
+        def atom(e):
+            return {x: True, f"{x} is not None": True, f"{x} is None": False}.get(norm(e))
+        from ..flowexpr import truth as _truth
+        cs, unk = [], []
+        for q in _paths(fn):       # tests about the unit are fixed, every other test (dtype, array or scalar) is free
+            if all(_truth(t.resolved, atom) in (None, t.extra) for t in q.tests()):
+                cs.append(q)
+        # what the returned value is computed from, with the unit given: every returned expression mentions exactly this conversion
+        want = f"self._convert(self.magnitude, self.baseunits, BaseUnits({x})).value"
+        rets = [norm(reduce_ifexp(e.resolved, atom)) for q in cs for e in q.events if e.kind == "return" and e.resolved is not None]
+        swapped = f"self._convert(self.magnitude, BaseUnits({x}), self.baseunits)"
+        stores = sorted({str(e.extra) for q in cs for e in q.events if e.kind == "store" and str(e.extra).startswith("self.")})
+        if stores:
+            ctx.violated(Q, "Quantity.value", what, detail={"stores to self": stores}, expected="no store: value() is a query")
+        elif any(swapped in r for r in rets):
+            ctx.violated(Q, "Quantity.value", what, detail=[r for r in rets if swapped in r][:1], expected=want)
+        else:
+            ctx.form(bool(rets) and all(want in r for r in rets), Q, "Quantity.value", what, detail=rets[:2] or sorted(set(unk))[:2])
 
 
 def r5_dimension_equality(ctx):
